@@ -42,6 +42,7 @@ type c07Input struct {
 	Undo     bool       `json:"undo"`
 	Forked   bool       `json:"forked"`
 	Straddle bool       `json:"straddle"` // prefer a cursor whose LIB is below the hub window and whose block is inside
+	CurAhead int        `json:"cur_ahead,omitempty"` // the cursor may come from a server that had seen this many more arrivals than the hub
 	Stop     uint64     `json:"stop"`
 	Filter   string     `json:"filter"` // default | final | custom
 	Custom   int        `json:"custom"`
@@ -262,7 +263,7 @@ func c07Run(in *c07Input) *c07Obs {
 	if in.Mode == "cursor" || in.Mode == "target" {
 		var cand []int
 		for i, g := range all {
-			if g.arr >= in.A0 {
+			if g.arr >= in.A0+in.CurAhead {
 				break
 			}
 			if in.Filter == "final" {
@@ -653,6 +654,11 @@ func c07Gen(prop string) func(r *Rng, i int, tier string) any {
 			}
 			in.Shape += "/lagging-hub"
 		}
+		if in.Mode != "num" && r.Chance(18) {
+			// the cursor comes from a server that was ahead of this hub
+			in.CurAhead = 1 + r.Intn(6)
+			in.Shape += "/cursor-ahead"
+		}
 		return in
 	}
 }
@@ -737,7 +743,18 @@ func c07Corpus(prop string) func() []any {
 		}
 		finalAboveLib := &c07Input{Prop: prop, First: 2, Kept: 5, Bundle: 4, Root: lag(2), Arrival: arr2, A0: 6, HubStart: 8, Merged: 12,
 			Mode: "num", Start: 5, Filter: "final", Pauses: []c07Pause{{After: 6, Push: 4}}, Shape: "corpus/final-only-join-above-hub-lib"}
-		return []any{joinOnFork, finalAboveLib}
+		// final blocks only, resumed from a FINAL cursor that is ahead of the hub's LIB (the consumer was connected to a server
+		// that had seen 4 more blocks): linear chain 2..20, block n declares n-4 final; the hub holds 6..14 (LIB 10), the cursor
+		// is {irreversible, 12, LIB 12}. The hub serves it; when 15 and 16 arrive it announces 11 and 12 as irreversible -
+		// blocks the consumer already holds. Nothing at or below the cursor block may be delivered
+		// (found by the proof of c07_seamless_cursor_final: theorem c07_final_cursor_refuted)
+		var arr3 []fkBlock
+		for n := uint64(3); n <= 20; n++ {
+			arr3 = append(arr3, lag(n))
+		}
+		finalCursorAhead := &c07Input{Prop: prop, First: 2, Kept: 5, Bundle: 4, Root: lag(2), Arrival: arr3, A0: 12, HubStart: 6, Merged: 8,
+			Mode: "cursor", Start: 2, Filter: "final", CurAhead: 2, KSel: 9, Shape: "corpus/final-only-cursor-ahead-of-hub-lib"}
+		return []any{joinOnFork, finalAboveLib, finalCursorAhead}
 	}
 }
 
